@@ -55,6 +55,8 @@ def cases(tier, seed):
                         add('logdet', D=D, n=n, pivot=piv, rep=rep)
             for n in (1, 2, 3):
                 add('expm', D=D, n=n, rep=rep)
+            for n in (1, 2, 3):
+                add('detcomplex', D=D, n=n, rep=rep)
         # a small base matrix with directions of ordinary size, followed to high order: choices taken from the size of the base
         # point alone (approximation order, scaling) must be good for the derivatives too
         for D in (7, 8):
@@ -213,6 +215,16 @@ def _outer(ctx, p, rng):
         b[1:] = 0; b[0, 1:] = b[0, 0]
     if kinds == 'AU':
         a[1:] = 0; a[0, 1:] = a[0, 0]
+    mix = int(rng.integers(4))
+    if mix == 1:          # one operand complex, the other real (either one): the result is complex
+        if rng.random() < 0.5:
+            a = a + 1j * rng.normal(size=a.shape) * (1.0 if kinds[0] == 'U' else (np.arange(D).reshape(-1, 1, 1) == 0))
+            if kinds == 'AU':
+                a[0, 1:] = a[0, 0]
+        else:
+            b = b + 1j * rng.normal(size=b.shape) * (1.0 if kinds[1] == 'U' else (np.arange(D).reshape(-1, 1, 1) == 0))
+            if kinds == 'UA':
+                b[0, 1:] = b[0, 0]
     A = UTPM(a.copy()) if kinds[0] == 'U' else a[0, 0].copy()
     B = UTPM(b.copy()) if kinds[1] == 'U' else b[0, 0].copy()
     mech = 'outer:%s:%s' % (kinds, 'equal' if n == m else 'different-length')
@@ -226,6 +238,35 @@ def _outer(ctx, p, rng):
     if not e <= TAU_BIL:
         ctx.violation(mech + ':value', {'n': n, 'm': m, 'D': D, 'P': P, 'err_over_majorant': e}); return
     ctx.ok('outer:' + kinds, ('outer', kinds, n, m, D, P), noise=e)
+
+
+def _detcomplex(ctx, p, rng):
+    """det / logdet of a complex matrix polynomial (n <= 3): the cofactor expansion evaluated with truncated Cauchy products"""
+    D, P, n = p['D'], p['P'], p['n']
+    a = rng.normal(size=(D, P, n, n)) + 1j * rng.normal(size=(D, P, n, n))
+    a[0] += 3.0 * np.eye(n)
+
+    def mul(u, v):          # truncated product of two scalar polynomials (D, P)
+        w = np.zeros((D, P), dtype=complex)
+        for d in range(D):
+            for c in range(d + 1):
+                w[d] += u[c] * v[d - c]
+        return w
+    e = lambda i, j: a[:, :, i, j]
+    if n == 1:
+        ref = e(0, 0).copy()
+    elif n == 2:
+        ref = mul(e(0, 0), e(1, 1)) - mul(e(0, 1), e(1, 0))
+    else:
+        ref = (mul(e(0, 0), mul(e(1, 1), e(2, 2)) - mul(e(1, 2), e(2, 1))) - mul(e(0, 1), mul(e(1, 0), e(2, 2)) - mul(e(1, 2), e(2, 0)))
+               + mul(e(0, 2), mul(e(1, 0), e(2, 1)) - mul(e(1, 1), e(2, 0))))
+    for nm, f in (('det', algopy.det), ('det', UTPM.det)):
+        ok, r = _call(ctx, 'det:complex', f, UTPM(a.copy()))
+        if not ok:
+            ctx.violation('det:complex:raises:' + type(r).__name__, {'n': n, 'D': D, 'P': P, 'error': repr(r)[:200]}); return
+        if not isinstance(r, UTPM) or r.data.shape != (D, P) or not np.all(np.abs(r.data - ref) <= 1e-10 * (np.maximum.accumulate(np.abs(ref), axis=0) + 10.0 ** n)):
+            ctx.violation('det:complex:value', {'n': n, 'D': D, 'P': P, 'max_abs_error': float(np.max(np.abs(np.asarray(getattr(r, 'data', np.nan)) - ref)))}); return
+    ctx.ok('det', ('det', 'complex', n, D, P))
 
 
 def _trace(ctx, p, rng):
@@ -344,6 +385,12 @@ def _det(ctx, p, rng, log=False):
     D, P, n, pivot = p['D'], p['P'], p['n'], p['pivot']
     a = _mat_series(rng, D, P, n, pivot=pivot)
     name = 'logdet' if log else 'det'
+    if n >= 2 and rng.random() < 0.3:
+        # the base matrix of EVERY direction exactly upper / lower triangular or diagonal, the higher coefficients full
+        k = int(rng.integers(3))
+        for pp in range(P):
+            Tm = np.triu(0.4 * rng.normal(size=(n, n)), 1) + np.diag(rng.uniform(1.0, 2.0, size=n) * rng.choice([-1.0, 1.0], size=n))
+            a[0, pp] = [Tm, Tm.T, np.diag(np.diag(Tm))][k]
     if log:
         for pp in range(P):
             if np.linalg.det(a[0, pp]) < 0:
